@@ -186,7 +186,8 @@ func checkWith(c Case, o *vf.Obs, r *vf.Run) (err error) {
 // classify labels the case and applies the non-triviality rule: at least one
 // optional field left out and at least one present, or a string of a special
 // class, or an HCL-only expression.
-func classify(m sg.Model, o *vf.Obs) {
+func classify(m sg.Model, obs *vf.Obs) {
+	o := &classSet{seen: map[string]bool{}, o: obs}
 	present, absent := 0, 0
 	opt := func(p bool) {
 		if p {
@@ -347,7 +348,26 @@ func classify(m sg.Model, o *vf.Obs) {
 	o.ClassIf(len(m.Exprs) > 0, "attr_expression")
 
 	if (present > 0 && absent > 0) || special || len(m.Exprs) > 0 || len(m.Locals) > 0 {
-		o.NonTrivial()
+		obs.NonTrivial()
+	}
+}
+
+// classSet labels a case with each class once.
+type classSet struct {
+	seen map[string]bool
+	o    *vf.Obs
+}
+
+func (c *classSet) Class(name string) {
+	if !c.seen[name] {
+		c.seen[name] = true
+		c.o.Class(name)
+	}
+}
+
+func (c *classSet) ClassIf(cond bool, name string) {
+	if cond {
+		c.Class(name)
 	}
 }
 
